@@ -7,7 +7,7 @@ import subprocess
 import sys
 import time
 
-V = "/verif"
+V = os.path.dirname(os.path.dirname(os.path.abspath(__file__)))  # /verif, or a snapshot of it
 REPO = os.environ.get("VERIF_REPO", "/repo")
 TARGET = os.environ.get("VERIF_TARGET", V + "/target")
 import hashlib as _hl
